@@ -468,7 +468,7 @@ def jobs_for(prop, tier):
 
 def _jobs_for(prop, tier):
     if prop == 'C01':
-        return jobs_c01(tier) + jobs_carry(tier) + jobs_numpy_getitem(tier) + jobs_option_getitem(tier) + jobs_ellipsis(tier) + jobs_missing(tier) + jobs_advanced(tier) + jobs_getitem_entry(tier) + jobs_union_getitem_advanced(tier)
+        return jobs_c01(tier) + jobs_carry(tier) + jobs_numpy_getitem(tier) + jobs_option_getitem(tier) + jobs_ellipsis(tier) + jobs_missing(tier) + jobs_advanced(tier) + jobs_getitem_entry(tier) + jobs_union_getitem_advanced(tier) + jobs_union_ops(tier)
     if prop == 'C05':
         return jobs_c05(tier) + [j for j in jobs_option_below(tier) if j[1][3] in ('num', 'localindex')] + jobs_flatten(tier) + jobs_axis0(tier, 'localindex') + jobs_record_below(tier, ('num', 'localindex')) + jobs_axis_through_record(tier, ('num', 'localindex')) + [(h_union_flatten, (), 1800), (h_union_flatten_mixed, (False,), 1800), (h_union_flatten_mixed, (True,), 1800)]
     if prop == 'C09':
@@ -6166,19 +6166,20 @@ def h_union_getitem_advanced(tags):
             obls += [(nm, z3.And(g, z3.Not(out.raised), c)) for nm, c in nodeh.compare_value(res, want)]
 
     def replay(model, ent):
-        # contents: lists of two numbers / lists of two booleans; entry i of the union = the next list of its content; x[[0..n-1], cols]
-        na, nb = tags.count(0), tags.count(1)
-        A = 'i64 %s regular 2 0 ' % fullnative.ints(range(10, 10 + 2 * max(na, 1)))
-        B = 'bool %s regular 2 0 ' % fullnative.ints([k % 2 for k in range(2 * max(nb, 1))])
-        index, ca, cb, rows = [], 0, 0, []
-        for t in tags:
-            if t == 0:
-                index.append(ca); rows.append([10 + 2 * ca, 11 + 2 * ca]); ca += 1
-            else:
-                index.append(cb); rows.append([bool((2 * cb) % 2), bool((2 * cb + 1) % 2)]); cb += 1
+        # contents: lists of two numbers / lists of two booleans; entry i of the union = list index[i] of its content (index from the model); x[[0..n-1], cols]
+        iv = [model.eval(x, model_completion=True).as_signed_long() for x in idx]
+        if max(iv + [0]) > 20:
+            return False, 'index values too large to replay', {}
+        na = max([v + 1 for v, t in zip(iv, tags) if t == 0] + [1])
+        nb = max([v + 1 for v, t in zip(iv, tags) if t == 1] + [1])
+        A = 'i64 %s regular 2 0 ' % fullnative.ints(range(10, 10 + 2 * na))
+        B = 'bool %s regular 2 0 ' % fullnative.ints([(k // 2 + k) % 2 for k in range(2 * nb)])
+        rowsA = [[10 + 2 * r, 11 + 2 * r] for r in range(na)]
+        rowsB = [[bool((2 * r // 2 + 2 * r) % 2), bool(((2 * r + 1) // 2 + 2 * r + 1) % 2)] for r in range(nb)]
+        rows = [(rowsA if t == 0 else rowsB)[v] for v, t in zip(iv, tags)]
         cols = [i % 2 for i in range(n)]
-        prog = A + B + 'union8_64 %d %s %s 2 getitem 2 array %s array %s' % (n, ' '.join(map(str, tags)), ' '.join(map(str, index)), fullnative.ints(range(n)), fullnative.ints(cols))
-        return akrun_check(prog, [rows[i][cols[i]] for i in range(n)], 'union %s sliced [[0..n-1], %s]' % (rows, cols))
+        prog = A + B + 'union8_64 %d %s %s 2 getitem 2 array %s array %s' % (n, ' '.join(map(str, tags)), ' '.join(map(str, iv)), fullnative.ints(range(n)), fullnative.ints(cols))
+        return akrun_check(prog, [rows[i][cols[i]] for i in range(n)], 'union %s (index %s) sliced [[0..n-1], %s]' % (rows, iv, cols))
     return mdischarge(nc.m, 'UnionArray8_64::getitem_next(index array, advanced) tags=%s' % (tags,), obls, [], replay=replay, prefer=[nc.lencontent <= 8, lb <= 8],
                       extra=dict(bounds='%d entries, tags concrete (case split); index values and pairing symbolic; two opaque contents' % n))
 
